@@ -25,10 +25,13 @@ FUNCTIONS = [
     "reconciliation:_get_curie_preferred_or_synonym", "reconciliation:_get_uri_preferred_or_synonym",
     "reconciliation:rewire", "reconciliation:remap_uri_prefixes",
     "_get_prefix_map", "_get_reverse_prefix_map", "_get_prefix_synmap",
+    "mapping_service/api:MappingServiceGraph._expand_pair_all", "mapping_service/api:MappingServiceGraph.triples",
 ]
 SHORT = [q.rpartition(":")[2].rpartition(".")[2] for q in FUNCTIONS]
 MODULE = {s_: (q.partition(":")[0] if ":" in q else "api") for q, s_ in zip(FUNCTIONS, SHORT)}
-IS_METHOD = {s_: q.rpartition(":")[2].startswith("Converter.") for q, s_ in zip(FUNCTIONS, SHORT)}
+IS_METHOD = {s_: "." in q.rpartition(":")[2] for q, s_ in zip(FUNCTIONS, SHORT)}
+# methods of the mapping service's graph: `self` is the graph, its converter is `self.converter`
+IS_GRAPH = {s_: q.rpartition(":")[2].startswith("MappingServiceGraph.") for q, s_ in zip(FUNCTIONS, SHORT)}
 INDEX = {n: i for i, n in enumerate(SHORT)}
 
 ERR = {
@@ -128,7 +131,9 @@ class FnTranslator:
     def __init__(self, fn: ast.FunctionDef, sigs: dict[str, Signature], bases, is_method: bool):
         self.fn, self.sigs, self.bases, self.is_method = fn, sigs, bases, is_method
         self.sig = sigs[fn.name]
+        self.graph = IS_GRAPH.get(fn.name, False)
         self.vars: dict[str, int] = {p: i for i, p in enumerate(self.sig.params)}
+        self.out_var = None
 
     def var(self, name: str, create=False) -> int:
         if name not in self.vars:
@@ -156,7 +161,13 @@ class FnTranslator:
         raise Unsupported(f"constant {v!r}")
 
     def is_self(self, n) -> bool:
+        """n denotes the converter whose state the function reads: `self` (or the converter parameter); `self.converter` in a graph method"""
+        if self.graph:
+            return isinstance(n, ast.Attribute) and isinstance(n.value, ast.Name) and n.value.id == "self" and n.attr == "converter"
         return self.sig.self_name is not None and isinstance(n, ast.Name) and n.id == self.sig.self_name
+
+    def is_graph_self(self, n) -> bool:
+        return self.graph and isinstance(n, ast.Name) and n.id == "self"
 
     def exp(self, n: ast.expr) -> str:
         if isinstance(n, ast.Constant):
@@ -166,6 +177,10 @@ class FnTranslator:
                 raise Unsupported("the converter itself used as a value")
             return f"(EVar {self.var(n.id)})"
         if isinstance(n, ast.Attribute):
+            if self.is_graph_self(n.value):
+                if n.attr == "query_predicates":
+                    return "(ECall f_oracle_query_predicates XNil)"
+                raise Unsupported(f"self.{n.attr} of the graph")
             if self.is_self(n.value):
                 if n.attr == "delimiter":
                     return "ESelfDelim"
@@ -225,6 +240,18 @@ class FnTranslator:
                 raise Unsupported("dict literal with non-constant keys")
             keys = "; ".join(coq_str(k.value) for k in n.keys)
             return f"(EDictLit [{keys}] {self.exps([self.exp(v) for v in n.values])})"
+        if isinstance(n, ast.ListComp) and len(n.generators) == 1:
+            g = n.generators[0]
+            # [URIRef(x) for x in L if _is_valid_uri(x)]: URIRef is a str subclass (the same text); the filter is an oracle
+            if isinstance(g.target, ast.Name) and not g.is_async and len(g.ifs) == 1 and isinstance(g.ifs[0], ast.Call) \
+                    and isinstance(g.ifs[0].func, ast.Name) and g.ifs[0].func.id == "_is_valid_uri" and len(g.ifs[0].args) == 1 \
+                    and isinstance(g.ifs[0].args[0], ast.Name) and g.ifs[0].args[0].id == g.target.id and not g.ifs[0].keywords:
+                e = n.elt
+                if isinstance(e, ast.Call) and isinstance(e.func, ast.Name) and e.func.id == "URIRef" and len(e.args) == 1 and not e.keywords:
+                    e = e.args[0]
+                if isinstance(e, ast.Name) and e.id == g.target.id:
+                    return f"(EFilter f_oracle_is_valid_uri {self.exp(g.iter)})"
+            raise Unsupported("list comprehension " + ast.unparse(n)[:60])
         if isinstance(n, ast.IfExp):
             return f"(EIfExp {self.exp(n.test)} {self.exp(n.body)} {self.exp(n.orelse)})"
         if isinstance(n, ast.Tuple):
@@ -301,8 +328,12 @@ class FnTranslator:
             raise Unsupported(f"call of {f.id}")
         if isinstance(f, ast.Attribute):
             recv = f.value
+            if self.is_graph_self(recv):
+                if f.attr in INDEX and IS_GRAPH[f.attr]:
+                    return f"(ECall f_{f.attr} {self.call_args(f.attr, n)})"
+                raise Unsupported(f"self.{f.attr}(...) of the graph")
             if self.is_self(recv):
-                if f.attr in INDEX and IS_METHOD[f.attr]:
+                if f.attr in INDEX and IS_METHOD[f.attr] and not IS_GRAPH[f.attr]:
                     return f"(ECall f_{f.attr} {self.call_args(f.attr, n)})"
                 raise Unsupported(f"self.{f.attr}(...)")
             if isinstance(recv, ast.Attribute) and self.is_self(recv.value):
@@ -311,6 +342,9 @@ class FnTranslator:
                 if recv.attr == "trie" and f.attr == "longest_prefix_item" and len(n.args) == 1 and not n.keywords:
                     return f"(ETrieLPI {self.exp(n.args[0])})"
                 raise Unsupported(f"self.{recv.attr}.{f.attr}(...)")
+            if isinstance(recv, ast.Name) and recv.id in ("itt", "itertools") and f.attr == "product" and not n.keywords and len(n.args) == 2 \
+                    and not any(isinstance(a, ast.Starred) for a in n.args):
+                return f"(EProduct {self.exp(n.args[0])} {self.exp(n.args[1])})"
             if isinstance(recv, ast.Name) and recv.id in ("itt", "itertools") and f.attr == "chain" and not n.keywords \
                     and not any(isinstance(a, ast.Starred) for a in n.args):
                 return f"(EChain {self.exps([self.exp(a) for a in n.args])})"
@@ -345,6 +379,9 @@ class FnTranslator:
         raise Unsupported("exception " + ast.unparse(n)[:40])
 
     def stmt(self, s: ast.stmt):
+        if isinstance(s, ast.Expr) and isinstance(s.value, ast.Yield) and s.value.value is not None:
+            # a generator is read as the list of what it yields (its consumers exhaust it): yield e appends to a hidden local
+            return f"(SAppend {self.out_var} {self.exp(s.value.value)})"
         if isinstance(s, ast.Expr):
             v = s.value
             if isinstance(v, ast.Constant) and isinstance(v.value, str):
@@ -421,6 +458,10 @@ class FnTranslator:
                 raise Unsupported(f"except {h.type.id}")
             caught = subclasses_in_err(self.bases, h.type.id)
             return f"(STry {self.block(s.body)} [{'; '.join(caught)}] {self.block(h.body)} {self.block(s.orelse)})"
+        if isinstance(s, ast.For) and not s.orelse and isinstance(s.target, ast.Tuple) and all(isinstance(x, ast.Name) for x in s.target.elts):
+            it = self.exp(s.iter)
+            ids = "; ".join(str(self.var(x.id, create=True)) for x in s.target.elts)
+            return f"(SForUnpack [{ids}] {it} {self.block(s.body)})"
         if isinstance(s, ast.For):
             if s.orelse or not isinstance(s.target, ast.Name):
                 raise Unsupported("for with else / structured target")
@@ -430,6 +471,14 @@ class FnTranslator:
         raise Unsupported("statement " + ast.unparse(s)[:60])
 
     def translate(self) -> str:
+        is_gen = any(isinstance(x, (ast.Yield, ast.YieldFrom)) for x in ast.walk(self.fn))
+        if is_gen:
+            if any(isinstance(x, (ast.Return, ast.YieldFrom)) for x in ast.walk(self.fn)):
+                raise Unsupported("generator with return / yield from")
+            self.out_var = self.var("<yielded>", create=True)
+            body = f"(BCons (SAssign {self.out_var} (EListLit XNil)) {self.block(self.fn.body + [ast.Return(value=ast.Name(id='<yielded>', ctx=ast.Load()))])})"
+            nparams = len(self.sig.params)
+            return f"{{| fn_nparams := {nparams}; fn_nlocals := {len(self.vars) - nparams}; fn_body := {body} |}}"
         body = self.block(self.fn.body)
         nparams = len(self.sig.params)
         return f"{{| fn_nparams := {nparams}; fn_nlocals := {len(self.vars) - nparams}; fn_body := {body} |}}"
@@ -448,6 +497,8 @@ def gen_frag(src: Path, out: list[str]) -> dict[str, str]:
         try:
             fns[short] = find_function(trees[MODULE[short]], qual.rpartition(":")[2])
             sigs[short] = Signature(fns[short], IS_METHOD[short])
+            if IS_GRAPH[short]:
+                sigs[short].self_name = None      # `self` is the graph, not the converter
         except Unsupported as e:
             failed[f"frag_{short}"] = f"unsupported construct: {e}"
     for i, short in enumerate(SHORT):
